@@ -5,6 +5,7 @@ package main
 import (
 	"fmt"
 	"image"
+	"syscall"
 
 	"github.com/makiuchi-d/gozxing"
 	"github.com/makiuchi-d/gozxing/aztec"
@@ -235,7 +236,8 @@ func c06DrawImage(r *fw.Rec, rd *c06Reader, allowLarge bool) (img image.Image, c
 	return c06Paint(rng, mods, o), class + "/" + c06MutNames[mut], desc + " | mutation " + c06MutNames[mut] + " | " + o.String()
 }
 
-func c06ImageOne(r *fw.Rec, rd *c06Reader, allowLarge bool) bool {
+// shared: a reader instance kept for the whole case (nil: a fresh one per call).
+func c06ImageOne(r *fw.Rec, rd *c06Reader, allowLarge bool, shared gozxing.Reader) bool {
 	rng := r.Rng
 	img, class, desc := c06DrawImage(r, rd, allowLarge)
 	pure8 := 1
@@ -279,7 +281,12 @@ func c06ImageOne(r *fw.Rec, rd *c06Reader, allowLarge bool) bool {
 			}
 			return bmp
 		}
-		reader := rd.mk(hints)
+		reader := shared
+		if reader == nil || rd.fmts {
+			reader = rd.mk(hints)
+		} else {
+			r.Tally("calls on a reused reader instance")
+		}
 		var res *gozxing.Result
 		var err error
 		target := rd.name + ".Decode"
@@ -343,6 +350,96 @@ func c06ImageOne(r *fw.Rec, rd *c06Reader, allowLarge bool) bool {
 	}
 	r.NontrivialH(hash64s(rd.name + "|" + desc + "|" + hdesc))
 	return true
+}
+
+// ---------------------------------------------------------------------------
+// cost growth of the QR finder-pattern selection
+// ---------------------------------------------------------------------------
+
+func c06CPU() float64 {
+	var ru syscall.Rusage
+	syscall.Getrusage(syscall.RUSAGE_SELF, &ru)
+	return float64(ru.Utime.Nano()+ru.Stime.Nano()) / 1e9
+}
+
+// c06FinderGrid: an n x n image tiled with 7x7 finder patterns (1:1:3:1:1, one pixel per module) at a pitch of 9.
+func c06FinderGrid(n int) *image.Gray {
+	img := image.NewGray(image.Rect(0, 0, n, n))
+	for y := 0; y < n; y++ {
+		for x := 0; x < n; x++ {
+			v := uint8(255)
+			fx, fy := x%9, y%9
+			if fx < 7 && fy < 7 {
+				ring := minInt(minInt(fx, 6-fx), minInt(fy, 6-fy))
+				if ring != 1 {
+					v = 0
+				}
+			}
+			img.Pix[y*img.Stride+x] = v
+		}
+	}
+	return img
+}
+
+const c06GridCPULimit = 2.0 // CPU seconds for ONE call on an image of at most 520x520 pixels
+
+// c06GridCase feeds one QR entry point with tiled finder patterns of growing
+// size.  The ordinary oracle applies to every call; in addition the CPU time of
+// the call is measured, and the escalation stops with a budget violation at the
+// first call that needs more than c06GridCPULimit (the whole case then stays
+// below the framework's 20 CPU-s budget, which the next sizes would exceed).
+func c06GridCase(r *fw.Rec, which int) {
+	target := []string{"QRCodeReader.Decode", "QRCodeMultiReader.Decode", "QRCodeMultiReader.DecodeMultiple"}[which]
+	// reference cost: a valid symbol filling an image of 300x300
+	m, _ := c06QRMatrix(r.Rng, 6)
+	ref := c06Paint(r.Rng, m, &c06Render{scaleX: 300 / (len(m) + 8), scaleY: 300 / (len(m) + 8), quiet: 4, height: 1, dark: 0, light: 255})
+	call := func(img image.Image) (hasResult bool, err error, msg, stack string, panicked bool, cpu float64) {
+		bmp, e := gozxing.NewBinaryBitmap(gozxing.NewGlobalHistgramBinarizer(gozxing.NewLuminanceSourceFromImage(img)))
+		if e != nil {
+			panic(e)
+		}
+		t0 := c06CPU()
+		msg, stack, panicked = fw.Guard(func() {
+			switch which {
+			case 0:
+				res, e := qrcode.NewQRCodeReader().Decode(bmp, nil)
+				hasResult, err = res != nil, e
+			case 1:
+				res, e := mqr.NewQRCodeMultiReader().(gozxing.Reader).Decode(bmp, nil)
+				hasResult, err = res != nil, e
+			default:
+				rs, e := mqr.NewQRCodeMultiReader().DecodeMultiple(bmp, nil)
+				hasResult, err = rs != nil && (len(rs) > 0 || e == nil), e
+			}
+		})
+		return hasResult, err, msg, stack, panicked, c06CPU() - t0
+	}
+	_, _, _, _, _, refCPU := call(ref)
+	r.Max("valid 300x300 QR image, CPU ms ("+target+")", int64(refCPU*1000))
+	var sizes []int
+	var cpus []float64
+	for n := 40; n <= 520; n = n*110/100 + 1 {
+		img := c06FinderGrid(n)
+		hasResult, err, msg, stack, panicked, cpu := call(img)
+		n := n
+		data := func() map[string]interface{} {
+			return map[string]interface{}{"image": fmt.Sprintf("%dx%d Gray, 7x7 finder patterns (1 px per module) tiled at a pitch of 9 px", n, n), "binarizer": "global", "hints": "nil", "png_base64": c06PNG(img), "sizes": sizes, "cpu_seconds": cpus}
+		}
+		if !c06Judge(r, target, fmt.Sprintf("%s(%dx%d tiled finder patterns)", target, n, n), hasResult, err, msg, stack, panicked, true, data) {
+			return
+		}
+		sizes = append(sizes, n)
+		cpus = append(cpus, float64(int(cpu*1000))/1000)
+		r.Tally("tiled finder pattern images")
+		r.Max("tiled finder patterns, largest side tried ("+target+")", int64(n))
+		r.Max("tiled finder patterns, CPU ms of the slowest call ("+target+")", int64(cpu*1000))
+		if cpu > c06GridCPULimit {
+			r.Violation("budget", target+":budget:tiled-finder-patterns",
+				fmt.Sprintf("%s on a %dx%d image tiled with finder patterns needed %.1f CPU-s (a valid QR symbol filling 300x300 pixels: %.4f s); sides %v took %v s: the cost grows with about the 5th-6th power of the side (measured separately: DecodeMultiple 200x200 = 50 s, QRCodeReader.Decode 420x420 = 30 s, beyond the 20 CPU-s budget); the escalation stops here so that the case itself stays below the budget", target, n, n, cpu, refCPU, sizes, cpus), data())
+			return
+		}
+	}
+	r.Nontrivial("grid|" + target)
 }
 
 // ---------------------------------------------------------------------------
@@ -1226,19 +1323,24 @@ func c06AzECI(r *fw.Rec, lo, hi, step int) {
 // ---------------------------------------------------------------------------
 
 func c06(c *fw.Ctx) {
-	c.Rule("19 reader configurations (QR, Data Matrix, Aztec, QR multi reader through Decode and DecodeMultiple, EAN-13, EAN-8, UPC-A, UPC-E, multi-format UPC/EAN with and without POSSIBLE_FORMATS, Code 39 x {check, extended}, Code 93, Code 128, ITF, Codabar, RSS-14), each on seeded images through BOTH the hybrid and the global-histogram binariser: valid symbols of the reader's symbology (library writers, qrref/dmref/azref/onedref, an RSS-14 encoder) unmutated in a scanner-friendly rendering, or mutated at module level (flips, row/column deletion and duplication, crops through finder/guards, pasted noise, truncation, mirroring/inversion, combinations) and rendered with scale 1-4, quiet zone 0-10, arbitrary grey levels incl. low contrast, grey ramps, pixel noise and flips, alpha (NRGBA constant / noisy / symbol carried by alpha), RGBA tints, Gray16, Paletted, sub-images with a non-zero origin, canvases of 39/40/41 pixels and up to 800 pixels; symbols of other symbologies; synthetic images (noise, constant, 1x1..3x3, stripes, checkerboards, finder look-alikes); hint maps over all twelve decode hints with well-typed values. Every RowDecoder on rows (random runs of length 1..400, symbol rows clean / with odd margins / mutated / ending mid-symbol, every row of length 1..12). The three raw decoders on valid, mutated, arbitrary, tiny and non-square matrices (Aztec: all 36 sizes, matching and non-matching matrix sizes and data-block counts). The three bit-stream parsers on random bytes/bits, reference-encoded streams cut after every bit (byte for Data Matrix), hostile segment sequences, every QR mode nibble x version class, every ECI designator 0..999999 (QR: every byte form; Aztec: FLG(n) digits), every Data Matrix stream of up to two codewords (thorough: three after each latch), every Aztec bit string up to 14 (thorough: 18) bits. Per call: recover(), CPU/heap budget, exactly one of result/error, and for the image-level readers an error of the NotFound/Checksum/Format kinds. distinct = distinct (target, input description, hints)")
-	c.Assume("hint values have the Go types the readers assert (bool flags, string CHARACTER_SET, []gozxing.BarcodeFormat, []int, gozxing.ResultPointCallback incl. none); images are at least 1x1, rows at least 1 long; Aztec detector results name 1..32 layers (compact 1..4) and at least one data block")
+	c.Rule("19 reader configurations (QR, Data Matrix, Aztec, QR multi reader through Decode and DecodeMultiple, EAN-13, EAN-8, UPC-A, UPC-E, multi-format UPC/EAN with and without POSSIBLE_FORMATS, Code 39 x {check, extended}, Code 93, Code 128, ITF, Codabar, RSS-14), each on seeded images through BOTH the hybrid and the global-histogram binariser: valid symbols of the reader's symbology (library writers, qrref/dmref/azref/onedref, an RSS-14 encoder) unmutated in a scanner-friendly rendering, or mutated at module level (flips, row/column deletion and duplication, crops through finder/guards, pasted noise, truncation, mirroring/inversion, combinations) and rendered with scale 1-4, quiet zone 0-10, arbitrary grey levels incl. low contrast, grey ramps, pixel noise and flips, alpha (NRGBA constant / noisy / symbol carried by alpha), RGBA tints, Gray16, Paletted, sub-images with a non-zero origin, canvases of 39/40/41 pixels and up to 800 pixels, one image in five turned by an arbitrary angle / sheared / scaled by a real factor; every second case keeps one reader instance for all its images; symbols of other symbologies; synthetic images (noise, constant, 1x1..3x3, stripes, checkerboards, finder look-alikes); hint maps over all twelve decode hints with well-typed values. Every RowDecoder on rows (random runs of length 1..400, symbol rows clean / with odd margins / mutated / ending mid-symbol, every row of length 1..12). The three raw decoders on valid, mutated, arbitrary, tiny and non-square matrices (Aztec: all 36 sizes, matching and non-matching matrix sizes and data-block counts). The three bit-stream parsers on random bytes/bits, reference-encoded streams cut after every bit (byte for Data Matrix), hostile segment sequences, every QR mode nibble x version class, every ECI designator 0..999999 (QR: every byte form; Aztec: FLG(n) digits), every Data Matrix stream of up to two codewords (thorough: three after each latch), every Aztec bit string up to 14 (thorough: 18) bits. Three QR entry points on images tiled with finder patterns of growing side 40..520 with the CPU time of each call measured. Per call: recover(), CPU/heap budget, exactly one of result/error, and for the image-level readers an error of the NotFound/Checksum/Format kinds. distinct = distinct (target, input description, hints)")
+	c.Assume("hint values have the Go types the readers assert (flag hints: any value incl. nil, as documented; CHARACTER_SET: string or encoding.Encoding; []gozxing.BarcodeFormat; []int; gozxing.ResultPointCallback incl. a nil one); images are at least 1x1, rows at least 1 long; Aztec detector results name 1..32 layers (compact 1..4) and at least one data block")
+	c.Assume("budget: the framework's 20 CPU-s / 1.5 GiB per case; in the tiled-finder-pattern cases one call needing more than 2 CPU-s on an image of at most 520x520 pixels is charged (signature <target>:budget:tiled-finder-patterns) because the following sizes of the escalation exceed the case budget (measured: DecodeMultiple 200x200 = 50 CPU-s)")
 	c.Assume("DESIGN C06 don't-care: DecodeMultiple returning an empty non-nil slice with nil error; raw decoders, row decoders and parsers may return any non-nil error (kind tallied, not charged); results are not checked for content")
 
-	imgCases := c.Pick(400, 6000)
-	rowCases := c.Pick(100, 1500)
+	imgCases := c.Pick(600, 10000)
+	rowCases := c.Pick(100, 2000)
 	for ri := range c06Readers {
 		rd := &c06Readers[ri]
 		for i := 0; i < imgCases; i++ {
 			i := i
 			c.Run(fmt.Sprintf("img/%s/%d", rd.name, i), func(r *fw.Rec) {
+				var shared gozxing.Reader
+				if i%2 == 1 { // odd cases keep one reader instance (buffers, RSS pair lists) for all their images
+					shared = rd.mk(nil)
+				}
 				for k := 0; k < 8; k++ {
-					if !c06ImageOne(r, rd, !c.Quick() || i%4 == 0) {
+					if !c06ImageOne(r, rd, !c.Quick() || i%4 == 0, shared) {
 						return
 					}
 				}
@@ -1247,12 +1349,12 @@ func c06(c *fw.Ctx) {
 				}
 			})
 		}
-		c.Floor(rd.name+".Decode result", 100)
-		c.Floor(rd.name+".Decode errors", 100)
+		c.Floor(rd.name+".Decode result", 500)
+		c.Floor(rd.name+".Decode errors", 1500)
 		if rd.multi {
-			c.Floor(rd.name+".DecodeMultiple result", 100)
-			c.Floor(rd.name+".DecodeMultiple errors", 100)
-			c.Floor(rd.name+".DecodeMultiple several results", 5)
+			c.Floor(rd.name+".DecodeMultiple result", 500)
+			c.Floor(rd.name+".DecodeMultiple errors", 1500)
+			c.Floor(rd.name+".DecodeMultiple several results", 100)
 		}
 		if !rd.oneD {
 			continue
@@ -1270,15 +1372,23 @@ func c06(c *fw.Ctx) {
 			length := length
 			c.Run(fmt.Sprintf("rowexh/%s/%d", rd.name, length), func(r *fw.Rec) { c06RowExhaustive(r, rd, length) })
 		}
-		c.Floor(rd.name+".DecodeRow result", 100)
-		c.Floor(rd.name+".DecodeRow errors", 100)
+		c.Floor(rd.name+".DecodeRow result", 500)
+		c.Floor(rd.name+".DecodeRow errors", 5000)
 	}
+	for which := 0; which < 3; which++ {
+		which := which
+		c.Run(fmt.Sprintf("grid/%d", which), func(r *fw.Rec) { c06GridCase(r, which) })
+	}
+	c.Floor("tiled finder pattern images", 20)
 	c.Exhaustive("every row of length 1..12 through every RowDecoder (nil hints)")
-	c.Floor("binarizer hybrid results", 1000)
-	c.Floor("binarizer global results", 1000)
-	c.Floor("images with a side >= 600", 10)
-	c.Floor("images with a side of 39..41", 50)
-	c.Floor("images up to 3x3", 20)
+	c.Floor("binarizer hybrid results", 5000)
+	c.Floor("binarizer global results", 5000)
+	c.Floor("binarizer hybrid errors", 20000)
+	c.Floor("binarizer global errors", 20000)
+	c.Floor("images with a side >= 600", 200)
+	c.Floor("images with a side of 39..41", 1000)
+	c.Floor("images up to 3x3", 200)
+	c.Floor("calls on a reused reader instance", 10000)
 
 	decCases := c.Pick(500, 8000)
 	for i := 0; i < decCases; i++ {
@@ -1309,17 +1419,17 @@ func c06(c *fw.Ctx) {
 		})
 	}
 	for _, t := range []string{"qrcode/decoder.Decode", "datamatrix/decoder.Decode", "aztec/decoder.Decode"} {
-		c.Floor(t+" result", 100)
-		c.Floor(t+" errors", 100)
+		c.Floor(t+" result", 300)
+		c.Floor(t+" errors", 1000)
 	}
-	c.Floor("qrcode/decoder non-square inputs", 50)
-	c.Floor("datamatrix/decoder non-square inputs", 50)
+	c.Floor("qrcode/decoder non-square inputs", 500)
+	c.Floor("datamatrix/decoder non-square inputs", 500)
 	c.Floor("qrcode/decoder.DecodeBoolMap result", 50)
 	c.Floor("datamatrix/decoder.DecodeBoolMap result", 50)
 	c.Floor("qrcode/decoder.DecodeBoolMap errors", 50)
 	c.Floor("datamatrix/decoder.DecodeBoolMap errors", 50)
-	c.Floor("images rotated / sheared", 500)
-	c.Floor("aztec/decoder.Decode inputs of another size than the layer count implies", 50)
+	c.Floor("images rotated / sheared", 3000)
+	c.Floor("aztec/decoder.Decode inputs of another size than the layer count implies", 300)
 
 	bitCases := c.Pick(200, 3000)
 	for i := 0; i < bitCases; i++ {
